@@ -172,7 +172,11 @@ def stage(chk, tier, seed, rnd, bdir, work):
     small = [r for r in rows if r["integral"] and r["pass"] == 0 and r["pre"]["nslots"] <= 6 and 1 <= r["it"] <= 3
              and verdicts[r["id"]][0] and r["outcome"] == "done"]
     small.sort(key=lambda r: (-sum(1 for o in r["ops"] if o["op"] == "split"), r["id"]))
-    pick = small[:6 if tier == "quick" else 16]      # (passes of four operations in every order already take TLC an hour)
+    pick = small[:6]
+    if tier != "quick":
+        # more cells, but only passes of at most two operations: three operations with splits in every order already take TLC minutes
+        # per cell, four take an hour
+        pick += [r for r in small[6:] if r["it"] <= 2][:14]
     if len(pick) < 3:
         raise ModelError("vacuous: %d small passes for the exploration of all orders" % len(pick))
     spath = os.path.join(work, "rp-small.ndjson")
